@@ -248,6 +248,49 @@ fn run_decoders(ctx: &mut Ctx, lit: &[u8], pre: usize, post: usize, label: &str)
         None => Got::NoStr,
     };
     verdict(ctx, "to_object_iter key", g, &strict, true, false);
+    // skip-only decoders of the unchecked APIs (well-formed literals only): the literal is a
+    // skipped sibling / the returned value, with only a few bytes of input after it
+    if strict.is_some() && utf8 {
+        let mut arr = vec![b' '; pre];
+        arr.push(b'[');
+        arr.extend_from_slice(lit);
+        arr.extend_from_slice(b",1]");
+        let arr = exact(&arr);
+        ctx.ops(3);
+        unsafe {
+            match sonic_rs::get_unchecked(&arr[..], &[1usize]) {
+                Ok(v) if v.as_raw_str() == "1" => {}
+                other => ctx.fail("skip-unchecked:get_unchecked", format!("get_unchecked([LIT,1],[1]) = {:?} for literal {:?}", other.map(|v| v.as_raw_str().to_string()).map_err(|e| e.to_string()), String::from_utf8_lossy(lit))),
+            }
+            match sonic_rs::get_unchecked(&arr[..], &[0usize]) {
+                Ok(v) if v.as_raw_str().as_bytes() == lit => {}
+                other => ctx.fail("skip-unchecked:get_unchecked-self", format!("get_unchecked([LIT,1],[0]) = {:?} for literal {:?}", other.map(|v| v.as_raw_str().to_string()).map_err(|e| e.to_string()), String::from_utf8_lossy(lit))),
+            }
+            let items: Vec<String> = sonic_rs::to_array_iter_unchecked(&arr[..]).map(|x| x.map(|v| v.as_raw_str().to_string()).unwrap_or_else(|e| format!("ERR {}", e))).take(5).collect();
+            if items.len() != 2 || items[0].as_bytes() != lit || items[1] != "1" {
+                ctx.fail("skip-unchecked:to_array_iter_unchecked", format!("items {:?} for literal {:?}", items, String::from_utf8_lossy(lit)));
+            }
+        }
+        let mut obj = vec![b' '; pre];
+        obj.extend_from_slice(b"{\"s\":");
+        obj.extend_from_slice(lit);
+        obj.extend_from_slice(b",\"t\":2}");
+        let obj = exact(&obj);
+        ctx.ops(2);
+        unsafe {
+            match sonic_rs::get_unchecked(&obj[..], &["t"]) {
+                Ok(v) if v.as_raw_str() == "2" => {}
+                other => ctx.fail("skip-unchecked:get_unchecked-object", format!("get_unchecked({{s:LIT,t:2}},[t]) = {:?} for literal {:?}", other.map(|v| v.as_raw_str().to_string()).map_err(|e| e.to_string()), String::from_utf8_lossy(lit))),
+            }
+            let mut t = sonic_rs::PointerTree::new();
+            t.add_path(&["t"]);
+            t.add_path(&["s"]);
+            match sonic_rs::get_many_unchecked(&obj[..], &t) {
+                Ok(v) if v.len() == 2 && v[0].as_ref().map(|x| x.as_raw_str()) == Some("2") && v[1].as_ref().map(|x| x.as_raw_str().as_bytes()) == Some(lit) => {}
+                other => ctx.fail("skip-unchecked:get_many_unchecked", format!("{:?} for literal {:?}", other.map(|v| v.iter().map(|x| x.as_ref().map(|y| y.as_raw_str().to_string())).collect::<Vec<_>>()).map_err(|e| e.to_string()), String::from_utf8_lossy(lit))),
+            }
+        }
+    }
     // get with the decoded key must find the member
     if let Some(w) = &strict {
         ctx.ops(1);
